@@ -74,7 +74,10 @@ def gen_float(rng, safe=False):
 
 def gen_scalar_cp(rng):
     return rng.weighted([(rng.range(0x20, 0x7e), 6), (rng.range(0, 0x1f), 1), (0x7f, 1), (rng.range(0x80, 0x7ff), 2), (rng.range(0x800, 0xd7ff), 2),
-                         (rng.range(0xe000, 0xffff), 1), (rng.range(0x10000, 0x10ffff), 2), (rng.choice([0x22, 0x5c, 0x7c, 0x0a, 0x09, 0x80, 0x3bb]), 3)])
+                         (rng.range(0xe000, 0xffff), 1), (rng.range(0x10000, 0x10ffff), 2), (rng.choice([0x22, 0x5c, 0x7c, 0x0a, 0x09, 0x80, 0x3bb]), 3),
+                         # the first and last code point of every encoding-width and hex-digit-count class, and the surrogate gap's edges
+                         (rng.choice([0x0, 0x1, 0xf, 0x10, 0x1f, 0x20, 0x7e, 0x7f, 0x80, 0xff, 0x100, 0x7ff, 0x800, 0xfff, 0x1000, 0xd7ff, 0xe000, 0xfffd, 0xffff,
+                                      0x10000, 0x10001, 0xfffff, 0x100000, 0x10fffe, 0x10ffff]), 3)])
 
 
 def gen_string_expr(rng, n=None):
